@@ -154,7 +154,10 @@ def prove_on_message_received(src_root, ex: Explorer):
 
 
 def prove_wait_for(src_root, which, ex: Explorer):
-    outcomes = ['message', 'timeout', 'caller-cancelled']
+    # timeout: the expiry cancelled the awaited future.  timeout-with-result: the matching reply was handled in the same loop iteration in
+    # which the timer fired - the future holds a RESULT when TimeoutError is raised.  timeout-pending: TimeoutError while the future is
+    # still pending (it has to be completed so that its removal callback runs)
+    outcomes = ['message', 'timeout', 'caller-cancelled', 'timeout-with-result', 'timeout-pending']
 
     def path(ctx: Ctx):
         it = mk(src_root, ctx)
@@ -175,6 +178,12 @@ def prove_wait_for(src_root, which, ex: Explorer):
                 task.result_val = (conn, msg)
                 task.complete(it2)
                 return task.result_val
+            if oc == 'timeout-with-result':
+                task.result_val = (conn, msg)
+                task.complete(it2)
+                it2.throw('TimeoutError')
+            if oc == 'timeout-pending':
+                it2.throw('TimeoutError')
             if oc == 'timeout':
                 # async_timeout: the awaiting task is cancelled, which cancels the awaited future; the block
                 # then raises TimeoutError
@@ -204,8 +213,8 @@ def prove_wait_for(src_root, which, ex: Explorer):
         fobj = made[0] if made else None
         if oc == 'message':
             ctx.prove(f'{name}.result', raised is None and res is msg, f'raised {raised}, returned {res!r}')
-        elif oc == 'timeout':
-            ctx.prove(f'{name}.timeout', raised == 'TimeoutError',
+        elif oc.startswith('timeout'):
+            ctx.prove(f'{name}.timeout' + ('' if oc == 'timeout' else f'[{oc[8:]}]'), raised == 'TimeoutError',
                       f'on expiry the caller gets {raised} instead of TimeoutError (set_exception on the future the timeout already cancelled)')
         else:
             ctx.prove(f'{name}.cancel', raised == 'CancelledError', f'raised {raised}')
